@@ -387,6 +387,54 @@ class FakeLock:
         self.release()
 
 
+class FakeRLock:
+    """Re-entrant lock cooperating with the scheduler. Taking a free lock (or one the caller already owns)
+    is not a scheduling point - so code whose critical sections contain no scheduling point behaves as
+    with a real lock and adds no decisions - but a thread that finds it held by another thread blocks *in
+    the scheduler* (with a real lock the whole run would hang)."""
+
+    def __init__(self, sched: Sched, role: str = "rlock") -> None:
+        self.sched, self.role = sched, role
+        self.owner: Any = None
+        self.count = 0
+        self._real = _real_threading.RLock()
+
+    def _me(self) -> Any:
+        s = self.sched
+        ident = _real_threading.get_ident()
+        return s.by_ident.get(ident, ident)
+
+    def acquire(self, blocking: bool = True, timeout: float = -1) -> bool:
+        me = self._me()
+        if self.owner is None or self.owner is me or self.owner == me:
+            self.owner = me
+            self.count += 1
+            return True
+        if not blocking:
+            return False
+        s = self.sched
+        if isinstance(me, LThread) and not s.aborted:
+            s.log("lock_wait", self.role)
+            s.yield_(Pending("acquire", self.role, alts=lambda: ["go"] if self.owner is None else []))
+            self.owner = me
+            self.count = 1
+            return True
+        # not a logical thread (harness set-up / tear-down): nothing else runs concurrently
+        self.owner, self.count = me, 1
+        return True
+
+    def release(self) -> None:
+        self.count -= 1
+        if self.count <= 0:
+            self.owner, self.count = None, 0
+
+    def __enter__(self) -> bool:
+        return self.acquire()
+
+    def __exit__(self, *exc: Any) -> None:
+        self.release()
+
+
 class FakeThread:
     def __init__(self, sched: Sched, namer: Callable[[Any], str], group=None, target=None,
                  name=None, args=(), kwargs=None, daemon=None) -> None:
